@@ -9,6 +9,23 @@ from .machine import NOT, Machine, ok, err, some, none, Iter, Map
 ITP = "interpreter::interpreter::Interpreter::"
 
 
+def fresh_fields(fb, adt="interpreter::interpreter::Interpreter"):
+    """the fields of a struct with nothing known about them — except that fields of a std container type (HashSet / HashMap / Vec /
+    String / Option) start out empty, as in a freshly constructed value; a table row then sets what it is about"""
+    out = []
+    for x in fb.adt(adt)["variants"][0]["fields"]:
+        ty = x.get("ty") or ""
+        if ty.startswith("std::collections::HashSet<") or ty.startswith("std::collections::HashMap<") or ty.startswith("std::collections::BTree"):
+            out.append(Map())
+        elif ty.startswith("std::vec::Vec<"):
+            out.append([])
+        elif ty.startswith("std::option::Option<"):
+            out.append(none())
+        else:
+            out.append(UNKNOWN)
+    return out
+
+
 class Val:
     def __init__(self, tag):
         self.tag = tag
@@ -116,7 +133,7 @@ def run_spec(w, spec):
     exports = [("a", Val("A")), ("b", Val("B")), ("c", Val("C"))]
     lib = Val("library-name")
     libtok = Val("library")
-    selfv = [UNKNOWN for _ in w.fields]
+    selfv = fresh_fields(w.fb)
     selfv[w.fields.index("imported_library")] = Map()
     ev = []
 
@@ -230,7 +247,7 @@ def union_table(fb):
                 return []
             return NOT
         fields = [x["name"] for x in fb.adt("interpreter::interpreter::Interpreter")["variants"][0]["fields"]]
-        selfv = [UNKNOWN for _ in fields]
+        selfv = fresh_fields(fb)
         # the declaration may sit in the body of a library that is itself being loaded: its in-progress mark is there before and
         # has to be there after
         outer = Val("outer-library-being-loaded")
@@ -303,7 +320,7 @@ def declaration_table(fb):
     for decl in DECLARATIONS:
         exports = [("a", Val("A")), ("b", Val("B")), ("c", Val("C"))]
         lib, libtok, env = Val("library-name"), Val("library"), Val("env")
-        selfv = [UNKNOWN for _ in w.fields]
+        selfv = fresh_fields(w.fb)
         if "imported_library" in w.fields:
             selfv[w.fields.index("imported_library")] = Map()
         ev = []
